@@ -31,9 +31,11 @@ def _steps_from_states(states):
 def _work(job):
     from . import aave_drv
     kind, payload, mode = job
-    uni = _G.get("uni")
+    # the BFS and the simulation configuration may be of different levels (token sets / row tables): each has its own universe
+    ukey = "uni_sim" if kind == "beh" and _G.get("universe_sim") is not None else "uni"
+    uni = _G.get(ukey)
     if uni is None:
-        uni = _G["uni"] = aave_drv.Universe(_G["universe"])
+        uni = _G[ukey] = aave_drv.Universe(_G["universe_sim"] if ukey == "uni_sim" else _G["universe"])
     if kind == "path":
         states = [_G["graph"].state(n) for n in payload]
     else:
@@ -107,8 +109,11 @@ def explore(chk: Check, owner: str, cross=False):
     for i, b in enumerate(behs):
         jobs.append(("beh", [s for _, s in b], "all" if i % 2 == 0 else "events"))
     _G["universe"], _G["graph"], _G["owner"] = universe, g, owner
+    usim = tlc.printed(sres.output, "universe")
+    _G["universe_sim"] = usim if usim != universe else None
     all_probes = []
     _G.pop("uni", None)
+    _G.pop("uni_sim", None)
     ctx = mp.get_context("fork")
     nontrivial = set()
     with ctx.Pool(16) as pool:
@@ -167,19 +172,28 @@ def judge_probes(chk: Check, owner: str, probes):
     order = {"bounds": 0, "at": 1, "at_band": 2, "beyond": 3}
     uniq = [pr for gk in keys for pr in sorted(groups[gk], key=lambda x: order.get(x.get("tag"), 9))]
     tl = [pr for pr in uniq if pr["kind"] in ("step", "liqstep", "liqrun")]
-    verdicts = []
+    verdicts = [None] * len(tl)
     if tl:
-        f = chk.tmp / "probes.ndjson"
-        with open(f, "w") as fh:
-            for pr in tl:
-                fh.write(json.dumps({k: pr[k] for k in ("kind", "st", "st2", "ev", "act", "acts") if k in pr}, default=list) + "\n")
         tla = VERIF / "spec" / "trace" / "Trace_AaveProbe.tla"
-        lvl2 = any("DAI" in pr["st"]["w"] for pr in tl)
-        r = tlc.run(tla, tla.parent / ("Trace_AaveProbe2.cfg" if lvl2 else "Trace_AaveProbe.cfg"), chk.tmp, workers=1, env={"VERIF_PROBES": str(f)}, timeout=1500)
-        verdicts = list(tlc.printed(r.output, "probe_results"))
-        if len(verdicts) != len(tl):
-            raise RuntimeError(f"probe oracle returned {len(verdicts)} verdicts for {len(tl)} probes")
-        chk.extra["probe_oracle"] = {"probes": len(tl), "wall_s": round(r.wall_s, 1)}
+        wall = 0.0
+        # the probes of a level-2 universe (token DAI) and of a level-1 universe are evaluated by their own configurations
+        for lvl2 in (False, True):
+            idx = [i for i, pr in enumerate(tl) if ("DAI" in pr["st"]["w"]) == lvl2]
+            if not idx:
+                continue
+            f = chk.tmp / f"probes_{int(lvl2)}.ndjson"
+            with open(f, "w") as fh:
+                for i in idx:
+                    fh.write(json.dumps({k: tl[i][k] for k in ("kind", "st", "st2", "ev", "act", "acts") if k in tl[i]}, default=list) + "\n")
+            r = tlc.run(tla, tla.parent / ("Trace_AaveProbe2.cfg" if lvl2 else "Trace_AaveProbe.cfg"), chk.tmp, workers=1,
+                        env={"VERIF_PROBES": str(f)}, timeout=3000)
+            vs = list(tlc.printed(r.output, "probe_results"))
+            if len(vs) != len(idx):
+                raise RuntimeError(f"probe oracle returned {len(vs)} verdicts for {len(idx)} probes")
+            for i, v in zip(idx, vs):
+                verdicts[i] = v
+            wall += r.wall_s
+        chk.extra["probe_oracle"] = {"probes": len(tl), "wall_s": round(wall, 1)}
     chk.traces += len({json.dumps((pr["scenario"], pr["events"]), default=list) for pr in uniq})
     vi = iter(verdicts)
     band = {}
